@@ -969,6 +969,27 @@ fn check_probes(probes: &[PoolProbe], expect_len: usize) -> Option<String> {
             if s.count != occupied {
                 return Some(format!("slab {si}: cached count {} but {occupied} occupied slots", s.count));
             }
+            // The free list must visit every vacant slot exactly once and end past the last slot
+            // (a slot that is vacant but unreachable is lost capacity; the slab then believes it
+            // has room and the next insert lands outside its allocation).
+            let mut seen = vec![false; s.slots.len()];
+            let mut cur = s.free_head;
+            let mut walked = 0_usize;
+            while cur < s.slots.len() {
+                if seen[cur] {
+                    return Some(format!("slab {si}: free list revisits slot {cur}"));
+                }
+                seen[cur] = true;
+                match s.slots[cur] {
+                    Some(next) => cur = next,
+                    None => return Some(format!("slab {si}: free list reaches occupied slot {cur}")),
+                }
+                walked += 1;
+            }
+            let vacant = s.slots.len() - occupied;
+            if walked != vacant {
+                return Some(format!("slab {si}: free list visits {walked} slots but {vacant} slots are vacant"));
+            }
             let has_room = occupied < cap;
             let bit = p.vacancy_blocks.get(si / 64).map(|b| (b >> (si % 64)) & 1 == 1);
             if bit != Some(has_room) {
@@ -1069,6 +1090,7 @@ fn battery<P: PoolApi>(p: &Program, model: &Model, env: &Rc<Env<P>>, iter_yield:
                 *b = Some(s);
             }
         };
+        let probe_inconsistent = std::cell::Cell::new(false);
         let steps = catch_unwind(AssertUnwindSafe(|| {
         rec_set(REC_STEP, 1);
         let (len, empty) = env.with_pool(|pl| (pl.len(), pl.is_empty()));
@@ -1092,7 +1114,11 @@ fn battery<P: PoolApi>(p: &Program, model: &Model, env: &Rc<Env<P>>, iter_yield:
         }
         rec_set(REC_STEP, 4);
         if let Some(e) = check_probes(&env.with_pool(|pl| pl.probes()), l) {
+            // Inconsistent slab bookkeeping: any further mutation may write outside a slab and
+            // corrupt the heap of this process. Report it and stop using this pool.
             note(&mut bookkeeping, e);
+            probe_inconsistent.set(true);
+            return;
         }
         rec_set(REC_STEP, 5);
         {
@@ -1135,6 +1161,11 @@ fn battery<P: PoolApi>(p: &Program, model: &Model, env: &Rc<Env<P>>, iter_yield:
                 std::panic::resume_unwind(e);
             }
             v.push(("bookkeeping-skipped".into(), format!("{b}; then {} panicked: \"{msg}\"", step_name(rec_get(REC_STEP)))));
+            std::mem::forget(env.pool.borrow_mut().take());
+            return None;
+        }
+        if probe_inconsistent.get() {
+            v.push(("bookkeeping-skipped".into(), bookkeeping.take().unwrap_or_default()));
             std::mem::forget(env.pool.borrow_mut().take());
             return None;
         }
